@@ -25,7 +25,7 @@ from checks import C01 as c01
 import vlib
 
 MAP_FIELDS = {"labels", "sel", "nsSel"}
-ALL_ARCHS = "{1,2,3,4,5,6,7,8,9,10,11,12,13,14,15,16,17,18,19,20,21,22,23}"
+ALL_ARCHS = "{1,2,3,4,5,6,7,8,9,10,11,12,13,14,15,16,17,18,19,20,21,22,23,24}"
 ALL_LAYOUTS = "{0,1,2,3,4,5,6,7,8,9}"
 FLAGS = ("W_AllDomains = TRUE  W_Inverse = TRUE  W_Certain = TRUE  W_Bootstrap = TRUE  W_Slack = 0  W_Exclude = TRUE  "
          "W_MatchKeys = TRUE  W_MinDomains = TRUE  W_Policies = TRUE  W_Guard = TRUE")
@@ -34,16 +34,17 @@ SCOPE = {
     # mc: exhaustive closed-model scopes; gen: scenario enumeration scopes (replay = sample size, None = all);
     # orders: dequeue orders per enumerated scenario ("one" random / "all"); explore: explorer scenarios per profile
     "quick": dict(mc=["NPods = 3  Archs = {1,3,4,6,7,10}  Layouts = {0,1,2,3}  MaxClaims = 2",
-                      "NPods = 2  Archs = {2,5,9,11,12,13,14,15,16,17,18,20,22,23}  Layouts = {1,4,5,6,7,8,9}  MaxClaims = 2"],
+                      "NPods = 2  Archs = {2,5,9,11,12,13,14,15,16,17,18,20,22,23}  Layouts = {1,4,5,6,7,8,9}  MaxClaims = 2",
+                      "NPods = 3  Archs = {1,7,24}  Layouts = {0,1,3}  MaxClaims = 2"],
                   gen=[("NPods = 2  Archs = %s  Layouts = %s  MaxClaims = 2" % (ALL_ARCHS, ALL_LAYOUTS), 700),
                        ("NPods = 3  Archs = {1,3,4,5,6,7,9,10,11,14,18,20}  Layouts = {0,1,2,3,4,6}  MaxClaims = 2", 300)],
                   orders="one", explore={"topo": 1200, "interpod": 200}),
     # every archetype takes part in a 3-pod scope (a: core, d: spread policies, e: namespaces / hostname / limited affinity); b: all pairs x all
     # layouts with a third NodeClaim; c: four pods
-    "thorough": dict(mc=["NPods = 3  Archs = {1,3,4,5,6,7,9,10,11}  Layouts = {0,1,2,3}  MaxClaims = 2",
+    "thorough": dict(mc=["NPods = 3  Archs = {1,3,4,5,6,7,9,10,11,24}  Layouts = {0,1,2,3}  MaxClaims = 2",
                          "NPods = 2  Archs = %s  Layouts = %s  MaxClaims = 3" % (ALL_ARCHS, ALL_LAYOUTS),
                          "NPods = 4  Archs = {3,6,7}  Layouts = {0,3}  MaxClaims = 2",
-                         "NPods = 3  Archs = {8,12,13,14,18,22}  Layouts = {5,6,7}  MaxClaims = 2",
+                         "NPods = 3  Archs = {8,12,13,14,18,22,24}  Layouts = {5,6,7}  MaxClaims = 2",
                          "NPods = 3  Archs = {2,15,16,17,19,20,21,23}  Layouts = {1,8,9}  MaxClaims = 2"],
                      gen=[("NPods = 2  Archs = %s  Layouts = %s  MaxClaims = 2" % (ALL_ARCHS, ALL_LAYOUTS), None),
                           ("NPods = 3  Archs = %s  Layouts = %s  MaxClaims = 2" % (ALL_ARCHS, ALL_LAYOUTS), 9000),
